@@ -11,10 +11,10 @@ ID = "C06"
 LEVEL = "exploration"
 RUNS = {"quick": 10000, "thorough": 150000}
 RULE = (
-    "each run: seeded swarm configuration (key pool style/size, 1-8 distinct values around the 32-byte "
+    "each run: seeded swarm configuration (key pool style/size incl. mirrored pools with identical sub-tries and very long keys, 1-8 distinct values around the 32-byte "
     "embedding threshold, lru-cache knob, op weights, batch length, abort rate) and a 10-80 event history "
     "of set/delete/set-empty/no-op updates, direct and inside squash_changes blocks that are committed or "
-    "aborted (Exception/BaseException), plus restarts with regenerated counts, on one pruning HexaryTrie over "
+    "aborted (Exception/BaseException/abandoned coroutine), restarts with regenerated or caller-kept counts, values equal to node hashes, calls inside an except handler, a bystander pruning trie on its own store in the same process, on one pruning HexaryTrie over "
     "an empty SimDB; after every outer event db keys == hashed nodes of RefMPT(model), bytes equal, non-zero "
     "ref_count == reference multiplicity == regenerate_ref_count(). Non-trivial: >= 3 state-changing events "
     "that reached >= 2 distinct roots; distinct: by trace digest."
